@@ -466,3 +466,29 @@ Example inv_diff_dual_ex :
       cube 3 t_cubic
     & mt_inv_diff t_cubic = Done (31%Z, [:: [:: 31; 0; 0]; [:: 0; 31; 0]; [:: 11; 14; 1]]%Z)].
 Proof. by split; vm_compute. Qed.
+
+(** ** [P] get_mult_table_iff: [Order::get_mult_table] returns exactly on the bases closed under multiplication.
+    For a basis b of full rank of Q[x]/(f) (n rows of length n, non-zero determinant; f canonical of degree n):
+    a table is returned iff every product b_i b_j mod f has integer coordinates on b
+    ([closed_under_mul]: the Z-span of b is closed under multiplication).  The function has no unbounded loop,
+    so every other outcome is a panic (the integrality assertion or the unwrap of the linear solver). *)
+From RNT.Refine Require MultTableTotal.
+Theorem get_mult_table_total (f : seq Z) (n : nat) (b : seq (seq Qc)) :
+  canonZ f -> size f = n.+1 -> size b = n -> (forall i, (i < n)%N -> size (nth [::] b i) = n) ->
+  \det (qmx n n b) != 0 ->
+  (forall i j, (i < n)%N -> (j < n)%N ->
+    exists c : seq Z, size c = n /\
+      (Poly (nth [::] b i) * Poly (nth [::] b j)) %% Fq f = of_coords n b (map qz c)) ->
+  exists T, get_mult_table b f = Done T.
+Proof. move=> cf szf sb rb db h; exact: (MultTableTotal.get_mult_table_total cf szf sb rb db h). Qed.
+Theorem get_mult_table_iff (f : seq Z) (n : nat) (b : seq (seq Qc)) :
+  canonZ f -> size f = n.+1 -> size b = n -> (forall i, (i < n)%N -> size (nth [::] b i) = n) ->
+  \det (qmx n n b) != 0 ->
+  ((exists T, get_mult_table b f = Done T) <-> MultTableTotal.closed_under_mul f n b).
+Proof. move=> cf szf sb rb db; exact: (MultTableTotal.get_mult_table_iff cf szf sb rb db). Qed.
+(* non-vacuity: Z[(1+sqrt 5)/2] in Q[x]/(x^2 - 5) returns; (1/2) Z[sqrt 5] (not closed: (1/2)^2 = 1/4) panics *)
+Example get_mult_table_total_ex :
+  get_mult_table [:: [:: Q2Qc 1; Q2Qc 0]; [:: Q2Qc (1 # 2); Q2Qc (1 # 2)]] [:: -5; 0; 1]%Z
+    = Done [:: [:: [:: 1; 0]; [:: 0; 1]]; [:: [:: 0; 1]; [:: 1; 1]]]%Z
+  /\ get_mult_table [:: [:: Q2Qc (1 # 2); Q2Qc 0]; [:: Q2Qc 0; Q2Qc (1 # 2)]] [:: -5; 0; 1]%Z = Panic PAssert.
+Proof. by split; vm_compute. Qed.
